@@ -467,7 +467,11 @@ def _conds(idx, node, stop):
 
 
 def rules(ctx):
-    return [r11_1, r11_2, r11_3, r11_4]
+    out = [r11_1, r11_2, r11_3, r11_4]
+    if ctx.tier == "thorough":
+        from . import controls
+        out.append(controls.callee_pattern_control("R11.3", ORDER_BREAKERS, ["reversed", "reversed_in_place"]))
+    return out
 
 
 EXPLANATION = (
